@@ -132,6 +132,15 @@ type Script struct {
 	Dead map[string]bool
 }
 
+// NestedObs is one handler-issued mutation as the handler saw it.
+type NestedObs struct {
+	Type  string `json:"type"`
+	Exc   bool   `json:"exc"`   // Exception is among the called states
+	Qlen  int    `json:"qlen"`  // Machine.QueueLen() right before the call
+	IsErr bool   `json:"iserr"` // Machine.IsErr() right before the call
+	Res   string `json:"res"`
+}
+
 type NestedMut struct {
 	Type   string `json:"type"`
 	Called am.S   `json:"called"`
@@ -152,6 +161,9 @@ type Recorder struct {
 	script *Script
 	// NestedRes collects the results of nested mutations of the current call
 	NestedRes []string
+	// NestedObs: what each nested mutation met (queue length, error state) and
+	// what it was answered
+	NestedObs []NestedObs
 	// FiredPanics are the messages of the panics raised during the current call
 	FiredPanics []string
 	// OnHandler, if set, is called inside every handler body
@@ -172,6 +184,7 @@ func (r *Recorder) SetScript(s *Script) {
 	}
 	r.script = s
 	r.NestedRes = nil
+	r.NestedObs = nil
 	r.FiredPanics = nil
 }
 
@@ -311,6 +324,12 @@ func (r *Recorder) onHandler(b int, h HName, e *am.Event) (ret bool) {
 	}
 	for _, n := range nest {
 		var res am.Result
+		ob := NestedObs{Type: n.Type, Qlen: int(m.QueueLen()), IsErr: m.IsErr()}
+		for _, cs := range n.Called {
+			if cs == am.StateException {
+				ob.Exc = true
+			}
+		}
 		switch n.Type {
 		case "add":
 			res = m.Add(n.Called, nil)
@@ -321,6 +340,8 @@ func (r *Recorder) onHandler(b int, h HName, e *am.Event) (ret bool) {
 		}
 		r.mu.Lock()
 		r.NestedRes = append(r.NestedRes, ResStr(res))
+		ob.Res = ResStr(res)
+		r.NestedObs = append(r.NestedObs, ob)
 		r.mu.Unlock()
 	}
 	if stall != nil {
